@@ -163,6 +163,8 @@ def model_run(m, rows, ctx):
             events.append(("row", dec_str(e[1]), dec_str(e[2])))
         elif e[0] == 2:
             events.append(("enter", {0: "root_block", 1: "for", 2: "block"}[e[1]], bool(e[2])))
+        elif e[0] == 4:
+            events.append(("push",))
         else:
             events.append(("end", dec_str(e[1])))
     final = [(dec_str(k), [dec_str(x) for x in v[1]] if v[0] == 1 else dec_str(v[1])) for k, v in o[2]]
@@ -220,6 +222,18 @@ class Spy:
         return False
 
 
+class _GroupStack(list):
+    """FlowParser.node_group_stack, observed: a push of a new NodeGroup (begin_for / begin_block that is not skipped)"""
+
+    def __init__(self, items, events):
+        super().__init__(items)
+        self._events = events
+
+    def append(self, x):
+        self._events.append(("push",))
+        super().append(x)
+
+
 def impl_run(csvtext, ctx):
     import tablib
     from rpft.parsers.creation.flowparser import FlowParser
@@ -230,10 +244,12 @@ def impl_run(csvtext, ctx):
     def go():
         fp = FlowParser(RapidProContainer(), "f", tablib.import_set(csvtext, format="csv"), context=dict(ctx))
         box["fp"] = fp
+        fp.node_group_stack = _GroupStack(fp.node_group_stack, box["spy"].events)
         fp._parse_block()
         return fp
 
     with Spy() as spy:
+        box["spy"] = spy
         r = run_cli_mode(go)
     fp = box.get("fp")
     final = None
